@@ -39,9 +39,12 @@ TraceLoad == /\ Ev.op = "Load"
 TraceDrop == /\ Ev.op = "DropLevel" /\ ~Ev.panic /\ ~Ev.err
              /\ DropLevel(Ev.a, Ev.k) /\ Match(Ev.res, reg'[Ev.a]) /\ FrameOK
 
+TraceSetScale == /\ Ev.op = "SetScale" /\ ~Ev.panic
+                 /\ SetScale(Ev.a, Ev.k, Ev.err) /\ Match(Ev.res, reg'[Ev.a]) /\ FrameOK
+
 TraceSkip == /\ Ev.op = "Skip"
              /\ LET st == [op |-> Ev.sop, a |-> Ev.a, b |-> Ev.b, o |-> Ev.o, new |-> Ev.new, k |-> Ev.k] IN
-                IF Ev.sop = "DropLevel" THEN ~(reg[Ev.a].ok /\ Ev.k <= reg[Ev.a].lvl) ELSE ~Callable(st)
+                IF Ev.sop = "DropLevel" THEN ~(reg[Ev.a].ok /\ Ev.k <= reg[Ev.a].lvl) ELSE IF Ev.sop = "SetScale" THEN ~reg[Ev.a].ok ELSE ~Callable(st)
              /\ UNCHANGED <<reg, keys>>
 
 TraceReset == Ev.op = "Reset" /\ Reset(Ev.keys)
@@ -49,7 +52,7 @@ TraceSave == Ev.op = "Save" /\ ckpt' = reg /\ UNCHANGED <<reg, keys>>
 TraceRestore == Ev.op = "Restore" /\ reg' = ckpt /\ UNCHANGED <<keys, ckpt>>
 
 TraceNext == /\ l <= Len(Trace) /\ l' = l + 1
-             /\ \/ (TraceCall \/ TraceLoad \/ TraceDrop \/ TraceReset \/ TraceSkip) /\ UNCHANGED ckpt
+             /\ \/ (TraceCall \/ TraceLoad \/ TraceDrop \/ TraceSetScale \/ TraceReset \/ TraceSkip) /\ UNCHANGED ckpt
                 \/ TraceSave \/ TraceRestore
 TraceInit == Init /\ l = 1 /\ ckpt = reg /\ TLCSet(1, 1)
 TraceSpec == TraceInit /\ [][TraceNext]_tvars
